@@ -136,8 +136,8 @@ theorem facts_one_transaction :
     ∧ writeLoopReceivers = ["txn"]
     ∧ writeLoopTransactions = ["ds.store.database.NewTransaction(false)"]
     ∧ writeLoopParams = ["entities []*Entity", "txnTime int64", "txn *badger.Txn"]
-    ∧ commitIDTxnBody = ["s.idmux.Lock()", "defer s.idmux.Unlock()", "if s.idtxn == nil { return nil }", "err := s.idtxn.Commit()",
-        "if err != nil { return err }", "s.idtxn = nil", "return nil"] := by decide
+    ∧ commitIDTxnBody = ["s.idmux.Lock()", "defer s.idmux.Unlock()", "o := s.idTxnOwner()", "if o.idtxn == nil { return nil }", "err := o.idtxn.Commit()",
+        "if err != nil { return err }", "o.idtxn = nil", "return nil"] := by decide
 
 /-! ## sequences: change positions and internal ids are never reused -/
 
